@@ -36,6 +36,7 @@ Judge(e) ==
       [] e.ev = "additive"  -> JudgeAdditive(e)
       [] e.ev = "compare"   -> JudgeCompare(e)
       [] e.ev = "carbon"    -> JudgeCarbon(e)
+      [] e.ev = "batch_side" -> Fails(e, "BatchDecomposeExact", SameComp(e.out, e.truth))
       [] OTHER -> << <<e.id, "UnknownEvent">> >>
 
 TInit == i = 1 /\ bad = <<>> /\ TLCSet(1, <<>>)
